@@ -4,6 +4,7 @@
 import AnyVecModel.Props.C01
 import AnyVecModel.Proofs.KernelStack
 import AnyVecModel.Proofs.KernelCap
+import AnyVecModel.Proofs.KernelMemAccess
 namespace AnyVec
 namespace C11
 variable {bg : Nat → Option VecSt}
@@ -124,6 +125,23 @@ theorem fixed_capacities_are_the_source (n bytes size align : Nat) :
 theorem reserve_one_is_the_source (v : VecSt) :
     v.reserveOne = KernelTie.applyEff v (Gen.Kernel.reserve_one v.len v.cap) ∧ Gen.Kernel.expand_one = .ok (.expand 1) :=
   KernelTie.reserve_one_tie v
+
+/-- **source tie**: the capacity the fixed backends report is a field or a constant, never computed: `size()` of
+`StackMem` returns the `size` stored by `build`, of `StackNMem` the const parameter `N`, of `EmptyMem` the literal `0`
+(`/repo/src/mem/{stack,stack_n,empty}.rs`, read on this run) - and the model's fresh capacity is that value, and no
+capacity call can change it on these backends. -/
+theorem fixed_capacity_accessors_are_the_source (size align : Nat) :
+    Gen.Kernel.stack_mem_accessors.lookup "size" = some "self . size" ∧
+    Gen.Kernel.stackn_mem_accessors.lookup "size" = some "N" ∧
+    Gen.Kernel.empty_mem_accessors.lookup "size" = some "0" ∧
+    VecSt.buildCap .empty size align = .ok 0 ∧
+    (∀ n bytes c, VecSt.buildCap (.stackN n bytes) size align = .ok c → c = n) ∧
+    (∀ (v : VecSt) m, (v.bk = .empty ∨ (∃ b, v.bk = .stack b) ∨ (∃ n b, v.bk = .stackN n b)) →
+      ∃ msg, v.memResize m = .ub msg) := by
+  obtain ⟨_, h2, h3, h4, _⟩ := KernelTie.mem_accessors_tie
+  obtain ⟨_, m2, m3, m4⟩ := KernelTie.fresh_capacity_model size align
+  rw [h2, h3, h4]
+  exact ⟨rfl, rfl, rfl, m2, m3, m4⟩
 
 /-! ### fixed capacity over whole histories (Props/Refine.lean) -/
 
